@@ -607,7 +607,33 @@ func (vc *VC) mapLookup(st *State, m Val, k Val) (val Val, ok string) {
 	return v, present
 }
 
+func intElems(t types.Type) bool {
+	if t == nil {
+		return false
+	}
+	var e types.Type
+	switch u := t.Underlying().(type) {
+	case *types.Slice:
+		e = u.Elem()
+	case *types.Array:
+		e = u.Elem()
+	case *types.Pointer:
+		if a, ok := u.Elem().Underlying().(*types.Array); ok {
+			e = a.Elem()
+		}
+	}
+	if e == nil {
+		return false
+	}
+	b, ok := e.Underlying().(*types.Basic)
+	return ok && b.Info()&types.IsInteger != 0
+}
+
 func (vc *VC) evalSliceExpr(st *State, x *ast.SliceExpr) Val {
+	if intElems(vc.typeOf(x)) {
+		vc.bytesCtx++
+		defer func() { vc.bytesCtx-- }()
+	}
 	base := vc.eval(st, x.X)
 	var lo, hi string
 	lo = "0"
@@ -687,6 +713,14 @@ func (vc *VC) evalSliceExpr(st *State, x *ast.SliceExpr) Val {
 			av := vc.deref(st, base, x.Pos())
 			sortS := vc.sortOf(types.NewSlice(a.Elem()))
 			org := vc.fresh("org", "Int")
+			if isByteArraySmall(a) {
+				// view of a small byte array behind a pointer: materialise bytes
+				arr := vc.fresh("bytes", "(Array Int Int)")
+				for i := int64(0); i < a.Len(); i++ {
+					vc.assume(st, fmt.Sprintf("(= (select %s %d) %s)", arr, i, vc.byteOfBE(av.S, fmt.Sprint(i), a.Len())))
+				}
+				return mkSlice(sortS, arr, fmt.Sprint(a.Len()), org, a.Elem(), "")
+			}
 			return mkSlice(sortS, av.S, fmt.Sprint(a.Len()), org, a.Elem(), "")
 		}
 	}
